@@ -152,7 +152,7 @@ Definition site_node_fuel : string := "model fuel exhausted in make_field_node (
 (* query.rs:131: the index passed to `.nth(..)`.  It is 2 in the code under study (defect F1: with
    exactly two operations `.nth(2)` is None and the `.expect` panics).  The one-line repair
    `nth(2)` -> `nth(1)` is modelled by changing this constant to 1. *)
-Definition F1_index : nat := 2.
+Definition F1_index : nat := 1.  (* was 2 before the repair of F1 (fix: commit 5f9f7f1) *)
 
 (* ================================================================== small helpers *)
 (* Directive::get_argument: first argument of that name *)
